@@ -1,15 +1,421 @@
 package props
 
 import (
+	"fmt"
+	"go/ast"
+	"go/token"
+	"go/types"
+	"sort"
+	"strings"
+
 	"golang.org/x/tools/go/ssa"
 
 	"glbverif/checker/core"
+	"glbverif/checker/emit"
+	"glbverif/checker/sx"
 )
 
+type emitSetup struct {
+	cfg     emit.Config
+	it      *emit.Interp
+	decls   map[*types.Func]*ast.FuncDecl
+	methods map[string]*types.Func
+}
+
+func funcObj(fn *ssa.Function) *types.Func {
+	if fn == nil {
+		return nil
+	}
+	f, _ := fn.Object().(*types.Func)
+	return f
+}
+
+func buildEmit(p *core.Prog, h *handlerInfo, san *ssa.Function, gram emit.Grammar) *emitSetup {
+	pk := p.Pkgs["logger"]
+	es := &emitSetup{decls: map[*types.Func]*ast.FuncDecl{}, methods: map[string]*types.Func{}}
+	for _, f := range pk.Syntax {
+		for _, d := range f.Decls {
+			if fd, ok := d.(*ast.FuncDecl); ok && fd.Body != nil {
+				if obj, ok := pk.TypesInfo.Defs[fd.Name].(*types.Func); ok {
+					es.decls[obj] = fd
+				}
+			}
+		}
+	}
+	sinks, bufs := classifySinks(p, h, san)
+	classAt := map[token.Pos]emit.SinkClass{}
+	for _, s := range sinks {
+		classAt[s.In.Pos()] = emit.SinkClass{Class: s.Class, Bytes: s.Bytes}
+	}
+	bufParam := map[*types.Func]int{}
+	for fn, vals := range bufs {
+		if fn.Parent() != nil {
+			continue
+		}
+		for i, prm := range fn.Params {
+			if vals[prm] {
+				if obj := funcObj(fn); obj != nil {
+					bufParam[obj] = i
+				}
+			}
+		}
+	}
+	getters, releasers := poolFuncs(p, "logger")
+	ignore := map[*types.Func]bool{}
+	for g := range getters {
+		ignore[funcObj(g)] = true
+	}
+	for g := range releasers {
+		ignore[funcObj(g)] = true
+	}
+	var sep, open *types.Var
+	for _, f := range structFields(h.Named) {
+		if b, ok := f.Type().Underlying().(*types.Basic); ok {
+			switch b.Kind() {
+			case types.Bool:
+				sep = f
+			case types.Int:
+				open = f
+			}
+		}
+	}
+	_, isJSON := gram.(emit.JSON)
+	cfg := emit.Config{
+		Gram: gram, Info: pk.TypesInfo, Fset: p.Fset, Decls: es.decls, BufParam: bufParam,
+		Sanitizer: funcObj(san), Ignore: ignore, PreField: h.Pre,
+		ClassAt: func(pos token.Pos) (emit.SinkClass, bool) { c, ok := classAt[pos]; return c, ok },
+		IsColour: func(e ast.Expr) bool {
+			t := pk.TypesInfo.TypeOf(e)
+			if t == nil {
+				return false
+			}
+			if b, ok := t.Underlying().(*types.Basic); !ok || b.Kind() != types.Bool {
+				return false
+			}
+			s := strings.ToLower(types.ExprString(e))
+			return strings.HasSuffix(s, "colorful") || strings.HasSuffix(s, "colourful")
+		},
+		Pos: p.Pos,
+	}
+	if isJSON {
+		cfg.SepField, cfg.OpenField = sep, open
+		cfg.SanToken = emit.TokStr
+		cfg.TokenOf = func(class string) string {
+			switch {
+			case strings.HasPrefix(class, "table:"), class == "closed:time":
+				return emit.TokStr
+			case class == "closed:number":
+				return emit.TokNum
+			case class == "json-value":
+				return emit.TokValue
+			}
+			return ""
+		}
+		cfg.Resolve = func(s bool) int {
+			if s {
+				return emit.JAfterMember
+			}
+			return emit.JObjOpen
+		}
+		cfg.Pre = func(g emit.G, s *bool) ([]emit.G, []bool, error) {
+			if g.S != emit.JAfterMember {
+				return nil, nil, fmt.Errorf("the pre-rendered bytes are spliced in state %s (they start with a separator: only legal after a member)", emit.JSON{}.StateName(g.S))
+			}
+			var gs []emit.G
+			var ss []bool
+			for _, v := range []bool{true, false} {
+				if s != nil && *s != v {
+					continue
+				}
+				n := g
+				n.K++
+				n.S = cfg.Resolve(v)
+				gs, ss = append(gs, n), append(ss, v)
+			}
+			return gs, ss, nil
+		}
+	} else {
+		cfg.SanToken = emit.TokAtom
+		cfg.TokenOf = func(class string) string {
+			switch {
+			case strings.HasPrefix(class, "table:"), class == "closed:time", class == "closed:duration":
+				return emit.TokBare
+			case class == "closed:number":
+				return emit.TokNum
+			case class == "quoted":
+				return emit.TokAtom
+			}
+			return ""
+		}
+		cfg.Resolve = func(bool) int { return emit.TAfterItem }
+		cfg.Pre = func(g emit.G, s *bool) ([]emit.G, []bool, error) {
+			if g.S != emit.TAfterItem {
+				return nil, nil, fmt.Errorf("the pre-rendered bytes are spliced in state %s (they are a sequence of ` key=value` items: only legal after an item)", emit.Text{}.StateName(g.S))
+			}
+			return []emit.G{g}, []bool{true}, nil
+		}
+	}
+	es.cfg = cfg
+	es.it = emit.New(cfg)
+	for name, m := range h.Methods {
+		es.methods[name] = funcObj(m)
+	}
+	return es
+}
+
+// localBufNames: identifiers of fn's syntax that hold the line buffer: locals assigned from a pool getter,
+// and "&x" for locals x of the handler type whose pre-rendered field is appended to.
+func localBufNames(p *core.Prog, h *handlerInfo, es *emitSetup, decl *ast.FuncDecl) []string {
+	info := es.cfg.Info
+	var out []string
+	ast.Inspect(decl.Body, func(n ast.Node) bool {
+		as, ok := n.(*ast.AssignStmt)
+		if !ok || len(as.Lhs) != 1 || len(as.Rhs) != 1 {
+			return true
+		}
+		id, ok := as.Lhs[0].(*ast.Ident)
+		if !ok {
+			return true
+		}
+		if call, ok := as.Rhs[0].(*ast.CallExpr); ok {
+			var fn *types.Func
+			switch f := call.Fun.(type) {
+			case *ast.Ident:
+				fn, _ = info.Uses[f].(*types.Func)
+			case *ast.SelectorExpr:
+				fn, _ = info.Uses[f.Sel].(*types.Func)
+			}
+			if fn != nil && es.cfg.Ignore[fn] && fn.Type().(*types.Signature).Recv() == nil {
+				out = append(out, id.Name) // buf := newBuffer()
+			}
+		}
+		if t := info.TypeOf(id); t != nil {
+			if pt := ptrTo(t); pt != nil && types.Identical(pt, h.Named) {
+				out = append(out, "&"+id.Name) // h2 := h.clone()
+			}
+		}
+		return true
+	})
+	return out
+}
+
+func emitCommon(p *core.Prog, r *core.Report, h *handlerInfo, san *ssa.Function, gram emit.Grammar, rule string, startS, endS int) {
+	es := buildEmit(p, h, san, gram)
+	it := es.it
+	stateName := gram.StateName
+	perFn := map[string][]string{}
+	note := func(fn, msg string) { perFn[fn] = append(perFn[fn], msg) }
+
+	// Handle: from the start of a line to its end on every path
+	if obj := es.methods["Handle"]; obj != nil && es.decls[obj] != nil {
+		decl := es.decls[obj]
+		rets := it.RunMethod(obj, decl, localBufNames(p, h, es, decl), []emit.State{{G: emit.G{S: startS}, Env: map[string]bool{}}})
+		bad := map[string]bool{}
+		for _, rs := range rets {
+			g := rs.State().G
+			if g.S != endS || g.C != 0 || g.K != 0 {
+				name := "Invariant"
+				if g.S >= 0 {
+					name = stateName(g.S)
+				}
+				bad[fmt.Sprintf("a path of Handle returns with the line in state %s (depth %d%+d·N) instead of a complete line", name, g.C, g.K)] = true
+			}
+		}
+		for m := range bad {
+			note("Handle", m)
+		}
+		if len(rets) == 0 {
+			note("Handle", "no path of Handle reaches its end under the grammar (every path hit a grammar error)")
+		}
+	} else {
+		note("Handle", "method body not found")
+	}
+	// derivation methods preserve the handler invariant
+	for _, name := range []string{"WithAttrs", "WithGroup"} {
+		obj := es.methods[name]
+		if obj == nil || es.decls[obj] == nil {
+			continue
+		}
+		decl := es.decls[obj]
+		bufs := localBufNames(p, h, es, decl)
+		rets := it.RunMethod(obj, decl, bufs, []emit.State{{G: emit.G{S: emit.SInv}, Env: map[string]bool{}}})
+		for _, rs := range rets {
+			st := rs.State()
+			if st.G.S == emit.SInv {
+				if st.NOpen != 0 {
+					note(name, "the open-group counter changes although nothing was emitted")
+				}
+				continue
+			}
+			want := es.cfg.Resolve(true)
+			sepTxt := ""
+			if es.cfg.SepField != nil {
+				known := false
+				for _, b := range bufs {
+					if strings.HasPrefix(b, "&") {
+						if v, ok := st.Env[b[1:]+"."+es.cfg.SepField.Name()]; ok {
+							want, known = es.cfg.Resolve(v), true
+							sepTxt = fmt.Sprintf(" with %s=%v", es.cfg.SepField.Name(), v)
+						}
+					}
+				}
+				if !known {
+					note(name, "the separator flag of the derived handler is unknown at return")
+					continue
+				}
+			}
+			if st.G.S != want {
+				note(name, fmt.Sprintf("returns a handler whose pre-rendered bytes end in state %s%s: the next member would be emitted with a wrong separator", stateName(st.G.S), sepTxt))
+			}
+			if st.G.C != st.NOpen || st.G.K != 0 {
+				note(name, fmt.Sprintf("opens %d object(s) but the open-group counter changes by %d: Handle would close the wrong number of braces", st.G.C, st.NOpen))
+			}
+		}
+	}
+	for _, pr := range it.Problems {
+		note(pr.Fn, pr.Msg+" at "+pr.Pos)
+	}
+	var und []string
+	for _, u := range it.Undecided {
+		und = append(und, u.Fn+": "+u.Msg+" at "+u.Pos)
+	}
+	// one obligation per function that was interpreted
+	fns := map[string]bool{"Handle": true}
+	for _, n := range []string{"WithAttrs", "WithGroup"} {
+		if es.methods[n] != nil {
+			fns[n] = true
+		}
+	}
+	for k := range it.Summaries {
+		f := strings.SplitN(k, "|", 2)[0]
+		f = f[strings.LastIndex(f, ".")+1:]
+		fns[f] = true
+	}
+	for f := range perFn {
+		fns[f] = true
+	}
+	var names []string
+	for f := range fns {
+		names = append(names, f)
+	}
+	sort.Strings(names)
+	for _, f := range names {
+		msgs := uniq(perFn[f])
+		nS := 0
+		for k := range it.Summaries {
+			if strings.Contains(k, "."+f+"|") {
+				nS++
+			}
+		}
+		r.Check(len(msgs) == 0, rule, fmt.Sprintf("%s.%s keeps the %s grammar on every path", h.Name, f, gram.Name()), "-", fmt.Sprintf("no grammar error (%d entry-state summaries computed by fixpoint)", nS), strings.Join(msgs, "; "))
+	}
+	for _, u := range uniq(und) {
+		r.Unknown(rule, h.Name+": construct outside the interpreter's fragment", "-", u)
+	}
+	// summaries as evidence
+	var sums []string
+	for k, os := range it.Summaries {
+		var parts []string
+		for _, o := range os {
+			s := stateName(o.S)
+			if o.DC != 0 || o.DK != 0 {
+				s += fmt.Sprintf("%+d", o.DC)
+			}
+			switch o.Ret {
+			case 0:
+				s += "/false"
+			case 1:
+				s += "/true"
+			}
+			if o.NeedGroup {
+				s += "/only-kind-Group"
+			}
+			parts = append(parts, s)
+		}
+		sums = append(sums, short(k)+" → {"+strings.Join(parts, ", ")+"}")
+	}
+	sort.Strings(sums)
+	r.Extra["emit_summaries_"+h.Name] = sums
+}
+
 func emitJSON(p *core.Prog, r *core.Report, h *handlerInfo, san *ssa.Function) {
-	r.Note("C01-R1: emission typestate engine not built yet")
+	emitCommon(p, r, h, san, emit.JSON{}, "C01-R1", emit.JStart, emit.JEnd)
+	// constructor establishes, clone preserves the invariant (separator flag / counter / bytes)
+	var sep, open *types.Var
+	for _, f := range structFields(h.Named) {
+		if b, ok := f.Type().Underlying().(*types.Basic); ok {
+			switch b.Kind() {
+			case types.Bool:
+				sep = f
+			case types.Int:
+				open = f
+			}
+		}
+	}
+	if sep == nil || open == nil || h.Pre == nil {
+		r.Fail("C01-R1", h.Name+": invariant fields", "-", "separator flag / open-group counter / pre-rendered bytes not found")
+		return
+	}
+	for _, fn := range p.PkgFuncs("logger") {
+		sx.Instrs(fn, func(in ssa.Instruction) {
+			a, ok := in.(*ssa.Alloc)
+			if !ok || !types.Identical(ptrTo(a.Type()), h.Named) {
+				return
+			}
+			vals := map[*types.Var]ssa.Value{}
+			whole := false
+			for _, u := range *a.Referrers() {
+				switch x := u.(type) {
+				case *ssa.FieldAddr:
+					for _, uu := range *x.Referrers() {
+						if st, ok := uu.(*ssa.Store); ok && st.Addr == x {
+							vals[sx.FieldOf(x)] = st.Val
+						}
+					}
+				case *ssa.Store:
+					if x.Addr == a {
+						whole = true
+					}
+				}
+			}
+			c := fmt.Sprintf("%s created in %s satisfies the invariant", h.Name, fnName(fn))
+			if whole {
+				r.OK("C01-R1", c, p.Pos(a.Pos()), "whole-struct copy of a handler that satisfies it (byte sharing is C03's concern)")
+				return
+			}
+			isMethod := fn.Signature.Recv() != nil
+			if !isMethod {
+				// root constructor: empty bytes, counter 0, flag true
+				sv, okS := vals[sep]
+				cst, isC := sv.(*ssa.Const)
+				ok := okS && isC && cst.Value != nil && cst.Value.ExactString() == "true" && vals[open] == nil && vals[h.Pre] == nil
+				r.Check(ok, "C01-R1", c, p.Pos(a.Pos()), "empty bytes, no open group, separator flag true (the next member follows \"msg\")", "the root handler is created with a state that does not match empty pre-rendered bytes (flag must be true, counter 0)")
+				return
+			}
+			// derived: all three inherited from the receiver
+			var bad []string
+			for _, f := range []*types.Var{sep, open, h.Pre} {
+				v, ok := vals[f]
+				if !ok {
+					bad = append(bad, f.Name()+" not copied")
+					continue
+				}
+				if c, ok := v.(*ssa.Call); ok {
+					switch sx.CalleeName(c) {
+					case "slices.Clip", "slices.Clone", "bytes.Clone":
+						v = c.Call.Args[0]
+					}
+				}
+				org := sx.Origins(v)
+				if !org["field:"+h.Name+"."+f.Name()] {
+					bad = append(bad, f.Name()+" set from "+keys(org))
+				}
+			}
+			r.Check(len(bad) == 0, "C01-R1", c, p.Pos(a.Pos()), "bytes, counter and flag inherited together from the receiver", strings.Join(bad, "; "))
+		})
+	}
 }
 
 func emitText(p *core.Prog, r *core.Report, h *handlerInfo, san *ssa.Function) {
-	r.Note("C13-R1: emission typestate engine not built yet")
+	emitCommon(p, r, h, san, emit.Text{}, "C13-R1", emit.TLineStart, emit.TEnd)
 }
